@@ -536,8 +536,77 @@ def fmt_cand(c):
     return f"{k}: {show_term(c[1])} ~ {show_term(c[2])}"
 
 
+def counted_while(I, e, st, fr, roots):
+    """`while c < B { ..; c += 1 }` / `while c != B { ..; c += 1 }` with a counter c that the body advances by one on
+    every path and a bound B that the loop does not change: the body runs for c = c0, c0+1, .., B-1 — summarised
+    exactly like `for` over that range by the fold idioms (None when the loop is not of this shape)."""
+    import lax_model
+    if e.get("src") != "While" or e.get("stmts"):
+        return None
+    t = e.get("tail")
+    if not t or t.get("k") != "if" or not t.get("else"):
+        return None
+    cands = []
+    for r in sorted(roots, key=repr):
+        key = (fr.id, r)
+        v = st.env.get(key)
+        if isinstance(v, VNat):
+            cands.append((r, key, v.p))
+    found = None
+    for (r, key, c0) in cands:
+        probe = st.copy()
+        m = Poly.atom(("while-counter", id(e), str(r)))
+        probe.env[key] = VNat(m)
+        try:
+            outs = I.ev(t["cond"], probe, fr)
+        except Exception:
+            continue
+        if len(outs) != 1 or outs[0][2] is not None or not isinstance(outs[0][1], VBool):
+            continue
+        f = outs[0][1].f
+        B = None
+        if f[0] == "cmp" and f[1] == "ge":          # B - m - 1 >= 0
+            B = f[2] + m + 1
+        elif f[0] == "cmp" and f[1] == "ne":        # m - B != 0  or  B - m != 0
+            B = f[2] + m if (f[2] + m).atoms().isdisjoint({next(iter(m.atoms()))}) else m - f[2]
+        if B is None or (B.atoms() & m.atoms()):
+            continue
+        found = (r, key, c0, B)
+        break
+    if found is None:
+        return None
+    r, key, c0, B = found
+    if not st.ge(B, c0):
+        return None
+    N = B - c0
+    if st.eq(N, 0):
+        return [(st, UNIT, None)]
+    seq = VSeq(mk_arange(0, N))
+
+    def run_body(s, elem):
+        return I.ev(t["then"], s, fr)
+    n_ob = len(I.obligations)
+    out = lax_model.fold_loop(I, st, fr, e, seq, None, None, roots, run_body)
+    if out is None:
+        return None
+    res = out[0][0]
+    endv = res.env.get(key)
+    # the counter must have advanced by exactly one per iteration, and the loop condition must now be false
+    if not (isinstance(endv, VNat) and res.eq(endv.p, B)):
+        del I.obligations[n_ob:]
+        return None
+    chk = I.ev(t["cond"], res.copy(), fr)
+    if len(chk) != 1 or not isinstance(chk[0][1], VBool) or I.assume(res.copy(), chk[0][1].f):
+        del I.obligations[n_ob:]
+        return None
+    return out
+
+
 def while_loop(I, e, st, fr):
     roots = modified_roots(I, [e], fr)
+    r = counted_while(I, e, st, fr, roots)
+    if r is not None:
+        return r
 
     def body(s):
         return I.run_block(e["stmts"], e.get("tail"), s, fr)
